@@ -119,15 +119,18 @@ fn build_specification(guard: &StringGuard) -> Result<Option<Specification>, syn
             let has_trim = relevant_sanitizers
                 .iter()
                 .any(|s| matches!(s, RelevantSanitizer::Trim));
+            // NOTE: there may be more than one lower bound (`not_empty` counts as `len_char_min = 1`),
+            // the effective one is the greatest of them.
             let min_len = relevant_validators
                 .iter()
-                .find_map(|v| {
+                .filter_map(|v| {
                     if let RelevantValidator::LenCharMin(value) = v {
                         Some(value.clone())
                     } else {
                         None
                     }
                 })
+                .reduce(max_of_lengths)
                 .unwrap_or_else(|| ValueOrExpr::Value(0));
             let max_len = relevant_validators
                 .iter()
@@ -146,6 +149,17 @@ fn build_specification(guard: &StringGuard) -> Result<Option<Specification>, syn
                 max_len,
             };
             Ok(Some(spec))
+        }
+    }
+}
+
+/// Builds a length that is the greatest of the two given lengths.
+fn max_of_lengths(a: ValueOrExpr<usize>, b: ValueOrExpr<usize>) -> ValueOrExpr<usize> {
+    match (a, b) {
+        (ValueOrExpr::Value(a), ValueOrExpr::Value(b)) => ValueOrExpr::Value(a.max(b)),
+        (a, b) => {
+            let expr: syn::Expr = syn::parse_quote!(::core::cmp::Ord::max(#a, #b));
+            ValueOrExpr::Expr(expr)
         }
     }
 }
